@@ -142,7 +142,7 @@ static void one_message(const std::string &addr, const std::string &types, const
     if(!all_ctors) return;
 
     // varargs / va_list
-    CArg c[64]; bool snan_f;
+    static CArg c[1024]; bool snan_f;
     int n = flatten(types, args, c, snan_f);
     if(!snan_f) {
         if(n <= 4) {
@@ -181,20 +181,24 @@ int main(int argc, char **argv)
     gen::type_strings(std::string(gen::VALUE_TAGS) + "[]", 0, 3, types);
     size_t n_full = types.size();
     gen::type_strings("ihsbTm[]", 4, T ? 6 : 5, types);
-    if(T) {
-        // all well-nested strings of length 4 over all 17 symbols
-        gen::type_strings(std::string(gen::VALUE_TAGS) + "[]", 4, 4, types);
-        // long type strings (8, 16, 40 tags): every rotation of the 15 value tags, plain and wrapped in array brackets
+    {
+        // long type strings (8, 16, 40 tags; thorough also 100 and 300): every rotation of the 15 value tags, plain and
+        // wrapped in array brackets
         const std::string cyc = gen::VALUE_TAGS;
-        for(size_t L : {8u, 16u, 40u}) for(size_t off = 0; off < cyc.size(); ++off) {
+        std::vector<size_t> lens = {8, 16, 40}; if(T) { lens.push_back(100); lens.push_back(300); }
+        for(size_t L : lens) for(size_t off = 0; off < cyc.size(); off += (T ? 1 : 4)) {
             std::string t; for(size_t k = 0; k < L; ++k) t += cyc[(off + k) % cyc.size()];
             types.push_back(t);
             std::string w = t; w[0] = '['; w[L / 2] = ']'; w[L / 2 + 1] = '['; w[L - 1] = ']'; types.push_back(w);
         }
     }
+    if(T) {
+        // all well-nested strings of length 4 over all 17 symbols
+        gen::type_strings(std::string(gen::VALUE_TAGS) + "[]", 4, 4, types);
+    }
     const size_t max_addr = T ? 64 : 9;
     vp::bound("type_strings_len0-3_all17symbols", (long long)n_full);
-    vp::bound("type_strings_len4+", std::to_string(types.size() - n_full) + (T ? " (length 4..6 over {i h s b T m [ ]}, all of length 4 over the 17 symbols, rotations of the 15 value tags at lengths 8/16/40 plain and bracketed)" : " (length 4..5 over {i h s b T m [ ]})"));
+    vp::bound("type_strings_len4+", std::to_string(types.size() - n_full) + (T ? " (length 4..6 over {i h s b T m [ ]}, all of length 4 over the 17 symbols, all rotations of the 15 value tags at lengths 8/16/40/100/300 plain and bracketed)" : " (length 4..5 over {i h s b T m [ ]}, rotations of the 15 value tags at lengths 8/16/40 plain and bracketed)"));
     vp::bound("address_lengths", "1.." + std::to_string(max_addr));
     vp::bound("value_vectors", "full cross product for <=2 data tags, each-used + all-last beyond");
 
@@ -203,7 +207,7 @@ int main(int argc, char **argv)
         if(vp::deadline_passed()) { vp::cap("deadline: stopped at type string index " + std::to_string(ti) + " of " + std::to_string(types.size())); break; }
         const std::string &ts = types[ti];
         size_t ndata = 0; for(char t : ts) if(ref::has_data(t)) ++ndata;
-        auto vecs = gen::value_vectors(ts, T);
+        auto vecs = gen::value_vectors(ts, true);   // single-argument messages also get the 255/256/4095/4096-byte strings and blobs
         for(size_t v = 0; v < vecs.size(); ++v) {
             if(v == 0) {
                 for(size_t al = 1; al <= max_addr; ++al) one_message(gen::address(al), ts, vecs[v], v, true);
